@@ -137,3 +137,56 @@ func fnDisplayIndex(p *Prog) map[string]*ssa.Function {
 	}
 	return byName
 }
+
+// markSites: stores into mark fields (names given by suffix, e.g. ".needed",
+// ".nameOnDevice") in the non-test functions of package pkg.
+func markSites(p *Prog, pkg string, fields []string) []guardSite {
+	var out []guardSite
+	for _, fn := range allModFuncs(p) {
+		if pkgOfFunc(fn) != pkg || fn.Synthetic != "" {
+			continue
+		}
+		for _, gs := range guardSitesOf(p, fn) {
+			if !strings.HasPrefix(gs.Name, "store:") {
+				continue
+			}
+			for _, f := range fields {
+				if strings.HasSuffix(gs.Name, f) {
+					out = append(out, gs)
+				}
+			}
+		}
+	}
+	return out
+}
+
+// ruleMarkDiscipline: every store into a planner mark field of the package is
+// covered by audited guard rows (the rows themselves are compared by
+// ruleGuardTable); a mark store in a function+site without rows is new,
+// unaudited planner state.
+func ruleMarkDiscipline(p *Prog, r *Report, rule, prop, pkg string, fields []string, floor int) {
+	rows := readTable("guards.tsv", 5)
+	have := map[string]bool{}
+	for _, row := range rows {
+		if propListed(row[3], prop) {
+			have[row[0]+"|"+row[1]] = true
+		}
+	}
+	byFn := map[*ssa.Function]string{}
+	for n, fn := range fnDisplayIndex(p) {
+		byFn[fn] = n
+	}
+	seen := map[string]bool{}
+	n := 0
+	for _, gs := range markSites(p, pkg, fields) {
+		n++
+		k := byFn[gs.Fn] + "|" + gs.Name
+		if seen[k] {
+			continue
+		}
+		seen[k] = true
+		r.add(rule, "mark-audited|"+k, p.ipos(gs.In), "the conditions under which "+gs.Name[len("store:"):]+" is set in "+byFn[gs.Fn]+" are audited (rows in tables/guards.tsv)", have[k],
+			"a planner mark (which device object is kept / which target object is already on the device) is set at a place that was never audited: the planner can keep, reuse or drop an object under unchecked conditions")
+	}
+	r.floor(rule, "stores into mark fields of package "+pkg, n, floor)
+}
